@@ -210,19 +210,29 @@ def apply_edits(text, edits):
     return text
 
 
+def fn_nodes(tree):
+    """function definitions in source order, keyed name#k (k = occurrence index of that name): two methods of
+    different classes may share a name"""
+    nodes = sorted((n for n in ast.walk(tree) if isinstance(n, (ast.FunctionDef, ast.AsyncFunctionDef))), key=lambda n: (n.lineno, n.col_offset))
+    seen, out = collections.Counter(), []
+    for n in nodes:
+        out.append(("%s#%d" % (n.name, seen[n.name]), n))
+        seen[n.name] += 1
+    return out
+
+
 def fn_params(tree):
     out = {}
-    for node in ast.walk(tree):
-        if isinstance(node, (ast.FunctionDef, ast.AsyncFunctionDef)):
-            a = node.args
-            out[node.name] = [x.arg for x in list(a.posonlyargs) + list(a.args) + ([a.vararg] if a.vararg else [])
-                              + list(a.kwonlyargs) + ([a.kwarg] if a.kwarg else [])]
+    for key, node in fn_nodes(tree):
+        a = node.args
+        out[key] = [x.arg for x in list(a.posonlyargs) + list(a.args) + ([a.vararg] if a.vararg else [])
+                    + list(a.kwonlyargs) + ([a.kwarg] if a.kwarg else [])]
     return out
 
 
 def fn_kinds(tree, fname):
     """the parameter list of [fname] as Model/ParamEdit.v's [list param] (Gallina)"""
-    node = next(n for n in ast.walk(tree) if isinstance(n, (ast.FunctionDef, ast.AsyncFunctionDef)) and n.name == fname)
+    node = dict(fn_nodes(tree)).get(fname) or next(n for n in ast.walk(tree) if isinstance(n, (ast.FunctionDef, ast.AsyncFunctionDef)) and n.name == fname.split("#")[0])
     a = node.args
     pos = list(a.posonlyargs) + list(a.args)
     nd = len(a.defaults)
@@ -277,11 +287,13 @@ def explore_edits(r, rnd, ndocs):
                 und = [d for d in diags if d.get("code") == "undeclared-fixture"]
                 tree = ast.parse(text)
                 fn_at = {}
-                for node in ast.walk(tree):
-                    if isinstance(node, (ast.FunctionDef, ast.AsyncFunctionDef)):
-                        for ln in range(node.lineno, node.end_lineno + 1):
-                            fn_at[ln - 1] = node.name
-                shapes = {n: sh for n, f, sh in expect}
+                for key, node in fn_nodes(tree):
+                    for ln in range(node.lineno, node.end_lineno + 1):
+                        fn_at[ln - 1] = key             # inner functions come later in source order and win
+                shapes = {}
+                for n, f, sh in expect:
+                    shapes[n] = sh
+                    shapes.setdefault(n + "#0", sh)
                 for d in und:
                     fname = fn_at.get(d["range"]["start"]["line"])
                     fixture = text.split("\n")[d["range"]["start"]["line"]][d["range"]["start"]["character"]:d["range"]["end"]["character"]]
@@ -312,9 +324,29 @@ def explore_edits(r, rnd, ndocs):
                         if why:
                             bad.append({"kind": "quick fix", "why": why, "shape": shapes.get(fname), "function": fname, "fixture": fixture,
                                         "text": text, "edits": edits, "edited": new_text})
+                # all warnings of the document in ONE request: every offered fix must serve the function of ITS diagnostic
+                if len(und) >= 2:
+                    whole = {"start": {"line": 0, "character": 0}, "end": {"line": text.count("\n") + 1, "character": 0}}
+                    for a in srv.code_action(p, whole, und) or []:
+                        ds = a.get("diagnostics") or []
+                        if len(ds) != 1:
+                            continue
+                        d = ds[0]
+                        fname = fn_at.get(d["range"]["start"]["line"])
+                        fixture = text.split("\n")[d["range"]["start"]["line"]][d["range"]["start"]["character"]:d["range"]["end"]["character"]]
+                        edits = []
+                        for uri, es in (a.get("edit", {}).get("changes") or {}).items():
+                            edits += es
+                        new_text = apply_edits(text, edits)
+                        why = judge_edit(text, new_text, fname, fixture)
+                        stats["quickfix_in_batch"] += 1
+                        if why:
+                            bad.append({"kind": "quick fix (one request for all warnings of the document)", "why": why, "function": fname, "fixture": fixture,
+                                        "text": text, "edits": edits, "edited": new_text})
                 # body completion: ask on the body line of every function, at its end
                 for (fname, fx, shape) in expect:
-                    node = next(n for n in ast.walk(tree) if isinstance(n, (ast.FunctionDef, ast.AsyncFunctionDef)) and n.name == fname)
+                    fname = fname if "#" in fname else fname + "#0"
+                    node = dict(fn_nodes(tree))[fname]
                     ln = node.body[0].lineno - 1
                     col = len(text.split("\n")[ln])
                     items = srv.completion(p, ln, col) or []
